@@ -1564,6 +1564,16 @@ class DynamicBase(BaseSpaceImpl):
         for r in {s.rootspace: True for s in self._dynamic_subs}:
             r.del_all_itemspaces()
 
+    def set_formula(self, formula):
+        ItemSpaceParent.set_formula(self, formula)
+        # Delete ItemSpaces containing dynamic copies of this space
+        if hasattr(self, "_dynamic_subs"):  # False when called from __init__
+            self.clear_subs_rootitems()
+
+    def del_formula(self):
+        ItemSpaceParent.del_formula(self)
+        self.clear_subs_rootitems()
+
     def change_dynsub_refs(self, name):
 
         for dynsub in self._dynamic_subs:
